@@ -873,7 +873,7 @@ func ruleDeletedSegmentReadsRecover(c *eng.Ctx) {
 	eng.Instrs(fn, func(in ssa.Instruction) {
 		switch x := in.(type) {
 		case *ssa.Return:
-			for _, r := range x.Results {
+			for _, r := range eng.RetVals(x) {
 				if isRep(r) {
 					site = in
 				}
@@ -1006,7 +1006,7 @@ func ruleCompactionScansEndOnlyAtEOF(c *eng.Ctx) {
 				if !hasErrors {
 					return true
 				}
-				return eng.NilConst(r.Results[len(r.Results)-1])
+				return eng.NilConst(eng.RetVals(r)[len(eng.RetVals(r))-1])
 			}, CutEdges: cuts, CutInstr: func(x ssa.Instruction) bool {
 				if x == sc.(ssa.Instruction) {
 					return true
